@@ -47,15 +47,15 @@ def spec(T, abi, op, params):
     m = re.match(r"^(add|sub|mul|div)_(vv|vs|sv)$", op)
     if m:
         o, f = m.groups()
-        if o == "div" and not isF: return None
         a, b = params
         x = L(a) if f[0] == "v" else a; y = L(b) if f[1] == "v" else b
+        if o == "div" and not isF: return "BitVec.sdiv (%s) (%s)" % (x, y)
         return bop(o, x, y)
     m = re.match(r"^i(add|sub|mul|div)_(s|r|v)$", op)
     if m:
         o, f = m.groups()
-        if o == "div" and not isF: return None
         s, a = params
+        if o == "div" and not isF: return "BitVec.sdiv (%s) (%s)" % (L(s), a if f == "s" else L(a))
         return bop(o, L(s), a if f == "s" else L(a))
     if op == "pos": return L(params[0])
     if op == "neg": return ("fneg%d (%s)" % (w, L(params[0]))) if isF else "- (%s)" % L(params[0])
@@ -115,7 +115,21 @@ def cspec(T, abi, op, params):
     if op == "magnitude": a, = params; return "fo.sqrt%d (%s)" % (w, f("add", f("mul", re(a), re(a)), f("mul", im(a), im(a))))
     return None
 
-# horizontal operations, scalar results etc. are stated by hand in Props/C08.lean
+def hspec(T, abi, op, params):
+    """integer horizontal operations = the fold over all lanes (float ones: association trees, by hand in Props/C08.lean)"""
+    if T not in ("int32", "int64"): return None
+    w = W[T]; N = BITS[abi] // w
+    E = (lambda v, k: "%s %d" % (v, k)) if w == 32 else (lambda v, k: "lane64 %s %d" % (v, k))
+    v = params[0]
+    els = ", ".join(E(v, k) for k in range(N))
+    if op == "sum": return "[%s].foldl (· + ·) 0" % els
+    if op == "product": return "[%s].foldl (· * ·) 1" % els
+    if op == "dot": return "[%s].foldl (· + ·) 0" % ", ".join("%s * %s" % (E(v, k), E(params[1], k)) for k in range(N))
+    if op == "minimum": return "[%s].foldl (fun q x => smin%d x q) (%s)" % (els, w, E(v, 0))
+    if op == "maximum": return "[%s].foldl (fun q x => smax%d x q) (%s)" % (els, w, E(v, 0))
+    return None
+
+# floating-point horizontal operations: association trees stated by hand in Props/C08.lean
 def main():
     isas = sys.argv[1:] or ["sse2", "avx2", "avx512"]
     for isa in isas:
@@ -157,6 +171,16 @@ def main():
                 rhs = spec(T, abi, op, [p[0] for p in ps])
             except Exception:
                 rhs = None
+            if ret in ("BitVec 32", "BitVec 64"):
+                try: hr = hspec(T, abi, op, [p[0] for p in ps])
+                except Exception: hr = None
+                if hr is None: skipped.append(name); continue
+                call = "%s.%s%s%s" % (isa, name, " fo" if has_fo else "", "".join(" " + p[0] for p in ps))
+                binder = " ".join("(%s : %s)" % p for p in ps)
+                unf = ", ".join("%s.%s" % (isa, d) for d in closure(defs, name))
+                lines.append("theorem %s_%s_%s %s :\n    %s = %s := by" % (T, abi, op, binder, call, hr))
+                lines.append("  first | (simp [simd, %s, lane64, reduce_add_epi32, reduce_add_epi64, smin32, smax32, smin64, smax64, List.range, List.range.loop]; done) | (simp [simd, %s, lane64, reduce_add_epi32, reduce_add_epi64, smin32, smax32, smin64, smax64, List.range, List.range.loop]; ac_rfl)" % (unf, unf))
+                n += 1; continue
             if rhs is None or ret != "Reg":
                 skipped.append(name); continue
             w = W[T]; N = BITS[abi] // w
